@@ -382,6 +382,18 @@ func runC07(c *Ctx) {
 		info := pd.Pkg.TypesInfo
 		params := pd.params(info) // c, id, up, tracks, replace
 		okEmpty, okFail := false, false
+		// the tracks wanted: result #0 of requestedTracks
+		var wanted types.Object
+		ast.Inspect(pd.Body(), func(n ast.Node) bool {
+			if as, ok := n.(*ast.AssignStmt); ok && len(as.Rhs) == 1 && len(as.Lhs) == 2 {
+				if call, ok := unparen(as.Rhs[0]).(*ast.CallExpr); ok && fnIs(calleeOf(&CallSite{Call: call, In: pd}), "rtpconn", "", "requestedTracks") {
+					if id, ok := as.Lhs[0].(*ast.Ident); ok {
+						wanted = info.ObjectOf(id)
+					}
+				}
+			}
+			return true
+		})
 		for _, cs := range p.CallSites() {
 			if cs.In != pd || !fnIs(calleeOf(cs), "rtpconn", "", "closeDownConn") || len(cs.Call.Args) != 3 {
 				continue
@@ -394,12 +406,12 @@ func runC07(c *Ctx) {
 			if t := ff.term(cs.Call.Args[0]); t == nil || t.String() != TVar(params[0]).String() {
 				continue
 			}
-			for _, fa := range st.Facts() {
-				if fa.Op == "eq" && fa.Pos && fa.B != nil && strings.Contains(fa.key, "len(requested") && (fa.A.Name == "0" || fa.B.Name == "0") {
-					if t := ff.term(cs.Call.Args[1]); t != nil && t.String() == TVar(params[1]).String() {
-						okEmpty = true
-					}
+			if wanted != nil && ff.Entails(st, mkFact(true, "eq", TCall("len", nil, TVar(wanted)), TConst("0"))) {
+				if t := ff.term(cs.Call.Args[1]); t != nil && t.String() == TVar(params[1]).String() {
+					okEmpty = true
 				}
+			}
+			for _, fa := range st.Facts() {
 				if fa.Op == "eq" && !fa.Pos && fa.B != nil && (fa.A.K == 'n' || fa.B.K == 'n') {
 					other := fa.B
 					if fa.B.K == 'n' {
